@@ -178,3 +178,6 @@ def required_labels(tier):
 
 
 KNOWN_PREDICATES = {}
+
+
+RULE = RULE + " " + ('Scenarios are identified by location (equally named scenarios are generated); the set of unsuccessful scenarios is also demanded by the reference model in run order.')
